@@ -370,7 +370,7 @@ pub struct WitnessCase {
   pub witnesses: Vec<Vec<Vec<u8>>>,
 }
 
-fn witness_check(case: &WitnessCase, cx: &Cx) -> CheckResult {
+pub fn witness_check(case: &WitnessCase, cx: &Cx) -> CheckResult {
   let witnesses = case
     .witnesses
     .iter()
